@@ -827,3 +827,75 @@ Proof. intros p mn mx H Hs L. destruct (accepted_length_good _ _ H) as [_ [B _]]
 Lemma nocache_max_attained : forall p mn mx,
   accepted_length p = Some (mn, mx) -> sat p = true -> mx < MAXU -> exists w, accepts p w /\ len w = mx.
 Proof. intros p mn mx H Hs L. destruct (accepted_length_good _ _ H) as [_ [_ [_ D]]]. apply D; auto. Qed.
+
+(* ------------------------------------------------------------------ ConstantSuffix with its call budget *)
+Lemma sufwalkB_S : forall p fa b pc seen s, sufwalkB p (S fa) b pc seen s =
+  if b =? 0 then SBudget
+  else
+      match lin p (lin_fuel p) pc with
+      | None => SErr
+      | Some (rs, e) =>
+        let s' := fold_left suf_step rs s in
+        match e with
+        | LMatch => SOk s' (N.pred b)
+        | LFail => SOk [] (N.pred b)
+        | LAlt a o g =>
+          if mem a seen then SOk [] (N.pred b)
+          else match sufwalkB p fa (N.pred b) o (a :: seen) s' with
+               | SOk s2 b2 =>
+                 match sufwalkB p fa b2 g (a :: seen) s' with
+                 | SOk s1 b1 => SOk (common_suffix s1 s2) b1
+                 | x => x
+                 end
+               | x => x
+               end
+        end
+      end.
+Proof. reflexivity. Qed.
+
+Lemma sufwalkB_O : forall p b pc seen s, sufwalkB p O b pc seen s = if b =? 0 then SBudget else SErr.
+Proof. reflexivity. Qed.
+
+(* within its budget the walk is the walk *)
+Lemma sufwalkB_ok : forall p fa b pc seen s r b', sufwalkB p fa b pc seen s = SOk r b' -> sufwalk p fa pc seen s = Some r.
+Proof.
+  induction fa; intros b pc seen s r b' H.
+  - rewrite sufwalkB_O in H. destruct (b =? 0); discriminate.
+  - rewrite sufwalkB_S in H. rewrite sufwalk_S. destruct (b =? 0); [discriminate|].
+    destruct (lin p (lin_fuel p) pc) as [[rs e]|]; [|discriminate]. cbv zeta in *.
+    destruct e as [a o g| |]; try (inversion H; reflexivity).
+    destruct (mem a seen); [inversion H; reflexivity|].
+    destruct (sufwalkB p fa (N.pred b) o (a :: seen) (fold_left suf_step rs s)) as [s2 b2| |] eqn:W2; try discriminate.
+    destruct (sufwalkB p fa b2 g (a :: seen) (fold_left suf_step rs s)) as [s1 b1| |] eqn:W1; try discriminate.
+    rewrite (IHfa _ _ _ _ _ _ W2), (IHfa _ _ _ _ _ _ W1). inversion H. reflexivity.
+Qed.
+
+Lemma sufwalkB_noerr : forall p fa pc seen s r, sufwalk p fa pc seen s = Some r ->
+  forall b, (exists b', sufwalkB p fa b pc seen s = SOk r b') \/ sufwalkB p fa b pc seen s = SBudget.
+Proof.
+  induction fa; intros pc seen s r H b; [discriminate|].
+  rewrite sufwalk_S in H. rewrite sufwalkB_S. destruct (b =? 0); [right; reflexivity|].
+  destruct (lin p (lin_fuel p) pc) as [[rs e]|]; [|discriminate]. cbv zeta in *.
+  destruct e as [a o g| |]; try solve [inversion H; subst; left; eauto].
+  destruct (mem a seen); [inversion H; subst; left; eauto|].
+  destruct (sufwalk p fa o (a :: seen) (fold_left suf_step rs s)) as [s2|] eqn:W2; [|discriminate].
+  destruct (sufwalk p fa g (a :: seen) (fold_left suf_step rs s)) as [s1|] eqn:W1; [|discriminate].
+  inversion H; subst.
+  destruct (IHfa _ _ _ _ W2 (N.pred b)) as [[b2 E2] | E2]; rewrite E2; [|right; reflexivity].
+  destruct (IHfa _ _ _ _ W1 b2) as [[b1 E1] | E1]; rewrite E1; [left; exists b1; reflexivity | right; reflexivity].
+Qed.
+
+Lemma constant_suffix_b_sound : forall p s w, wf p = true -> constant_suffix_b p = Some s -> accepts p w -> is_suffix s w.
+Proof.
+  intros p s w Hwf H Hw. unfold constant_suffix_b in H.
+  destruct (sufwalkB p (alt_fuel p) SUFFIX_BUDGET (start p) [] []) as [r b'| |] eqn:E; try discriminate.
+  - inversion H; subst. apply (constant_suffix_sound p s w Hwf); auto. unfold constant_suffix. eapply sufwalkB_ok; eauto.
+  - inversion H; subst. apply is_suffix_nil.
+Qed.
+
+Lemma constant_suffix_b_total : forall p, wf p = true -> exists s, constant_suffix_b p = Some s.
+Proof.
+  intros p Hwf. destruct (constant_suffix_total p Hwf) as [r Hr]. unfold constant_suffix in Hr.
+  unfold constant_suffix_b.
+  destruct (sufwalkB_noerr _ _ _ _ _ _ Hr SUFFIX_BUDGET) as [[b' E] | E]; rewrite E; eauto.
+Qed.
